@@ -157,6 +157,10 @@ for _n, _t in ((1, "quick"), (2, "quick"), (3, "quick")):
     add("unsync_cache.rs", f"admit_lemma_n{_n}", {"C13", "C12", "C10", "C08"}, _t, 20, "Cache::admit for ALL weights, candidate weights and sketch contents: Admitted <=> shortest covering LRU prefix exists and is strictly less popular; victims = that prefix",
         f"n={_n} residents, weights/candidate/sketch symbolic (u32 full range)", quick={"C13", "C12"},
         required=("rejected on popularity", "rejected: no covering prefix", "admitted over all residents"))
+add("unsync_cache.rs", "c11_drop_cache_with_one_entry_releases_it_once", {"C11", "C08"}, "quick", 40, "public insert from an empty cache, then the cache's own drop glue: the value is dropped exactly once", "1 insert, ttl on/off symbolic", quick={"C11"})
+add("unsync_cache.rs", "c11_update_and_invalidate_release_values_at_once", {"C11", "C08"}, "quick", 60, "insert, update, invalidate, drop through the public API with a drop-counting value", "3 operations from the empty cache", quick={"C11"})
+add("unsync_cache.rs", "c11_evicted_and_rejected_values_are_released_at_once", {"C11", "C13", "C12", "C08"}, "quick", 60, "public API from the empty cache: rejected newcomer, recorded miss, admitted newcomer evicting the resident, drop; drop-counting value", "capacity 1, 4 operations", quick={"C11"})
+add("unsync_cache.rs", "c11_expired_value_is_released_by_the_next_operation", {"C11", "C05", "C10", "C15", "C08"}, "quick", 60, "public API from the empty cache with ttl: insert, clock on the deadline, contains_key, get (purge), drop; drop-counting value", "ttl 10 s, 3 operations", quick={"C11"})
 add("unsync_cache.rs", "unsync_twin_must_fail", {"C01", "C03", "C04", "C05", "C06", "C07", "C08", "C10", "C12", "C13", "C15", "C16"}, "quick", 60,
     "vacuity twin of the unsync family", "n=2", expect_fail=True)
 
@@ -321,7 +325,7 @@ add("sync_cache.rs", "schedule_write_op_with_room_enqueues_once", {"C09", "C08"}
 for _n in (1, 2):
     add("sync_base_cache.rs", f"s_admit_lemma_n{_n}", {"C13", "C12", "C08"}, "quick", 25, "sync Inner::admit for ALL weights / candidate weights / sketch contents (decision only; read-only)",
         f"n={_n} admitted residents, u32 weights symbolic", required=("rejected on popularity", "rejected: no covering prefix", "admitted over all residents"))
-add("sync_base_cache.rs", "l_sync_round_plain", {"C10", "C03", "C09", "C12", "C01", "C06", "C08"}, "quick", 60, "one whole Inner::sync with a queued Hit and a queued insert that fits", "n=1 + 1 pending, unbounded, symbolic read timestamp", quick={"C10", "C03", "C09", "C12"})
+add("sync_base_cache.rs", "l_sync_round_plain", {"C10", "C03", "C09", "C12", "C01", "C06", "C08"}, "quick", 60, "one whole Inner::sync with a queued Hit and a queued insert that fits", "n=1 + 1 pending, unbounded, symbolic read timestamp", quick={"C10", "C03", "C09", "C12"}, unwind_tag="C09")
 add("sync_base_cache.rs", "l_apply_writes_update_then_remove_q2", {"C07", "C10", "C11", "C09", "C08"}, "thorough", 200, "the real apply_writes loop over TWO queued ops (update of a resident, then its removal)", "n=1, queue [Upsert, Remove]", quick={"C09"})
 add("sync_base_cache.rs", "l_sync_round_plain_late", {"C05", "C06", "C10", "C03", "C09", "C12", "C01", "C08"}, "quick", 60, "one whole Inner::sync run LATER than the queued insert it applies (clock advanced): timestamps still those of the insert", "n=1 + 1 pending, unbounded, symbolic read timestamp", quick={"C05", "C06"})
 add("sync_base_cache.rs", "l_evict_lru_terminates_on_unevictable_node", {"C09", "C08"}, "quick", 60, "evict_lru_entries over capacity with only an invalidated (unevictable) node left: bounded by its batch size", "n=1 whose map entry is gone, batch size 2", unwind_tag="C09")
